@@ -67,6 +67,11 @@ def capture(mp, items):
     ctx = FakeContext()
     cpm.spawn_context, cpm.MyProcessLine, cpm.ThreadLine = ctx, RecLine, RecLine
     RecLine.made = []
+    real_qs, sources = cpm.QueueSource, []
+    class RecQS(real_qs):
+        # the real QueueSource, remembered: the end marker the consumer waits for is whatever ITS source calls poison
+        def __init__(self, *a, **k): real_qs.__init__(self, *a, **k); sources.append(self)
+    cpm.QueueSource = RecQS
     gen = mp.filter(items)
     try:
         try: next(gen)
@@ -74,13 +79,15 @@ def capture(mp, items):
         except StopIteration: pass
     finally:
         cpm.spawn_context, cpm.MyProcessLine, cpm.ThreadLine = old
+        cpm.QueueSource = real_qs
     made = list(RecLine.made)
     loader = made[0] if made else None
     workers = made[1:]
     mp._load_stopper._stop = False           # the generator's finally-block stopped the loader when we abandoned it
     in_q, out_q = ctx.queues[0], ctx.queues[1]
     in_q.items.clear(); out_q.items.clear(); in_q.pulled = 0
-    return dict(loader=loader, workers=workers, in_q=in_q, out_q=out_q)
+    out_poison = next((q._poison for q in sources if q._queue is out_q), None)
+    return dict(loader=loader, workers=workers, in_q=in_q, out_q=out_q, out_poison=out_poison)
 
 def stream(n, at=None, hook=None):
     """a lazily generated stream: every item is a fresh, short-lived object (as environments/tasks are in coba)"""
@@ -103,10 +110,12 @@ class F:
         if self.kind == 'one': return item*10
         if self.kind == 'two': return iter([item*10, item*10+1])
         if self.kind == 'odd_none': return iter([] if item % 2 else [item*10])
+        if self.kind == 'none_out': return None if item == 1 else item*10        # None is an output like any other
         raise ValueError(self.kind)
     def expected(self, item):
         if self.kind == 'one': return [item*10]
         if self.kind == 'two': return [item*10, item*10+1]
+        if self.kind == 'none_out': return [None if item == 1 else item*10]
         return [] if item % 2 else [item*10]
 
 def _classify(v): return v['what'].split(':')[0][:110]
@@ -210,7 +219,7 @@ def callbacks(sym, which):
             else:
                 sym.check(restarted == 0, f"a worker was restarted although it was poisoned / failed / an error exists (poisoned={poisoned}, exception={has_exc}, prior={prior}, exit={code})")
                 sym.check(mp._n_procs == n0-1, "worker count not decremented exactly once")
-                if n0 == 1: sym.check(list(out_q.items) == [None], f"last worker left but the consumer was not released: out queue {list(out_q.items)}")
+                if n0 == 1: sym.check(len(out_q.items) == 1 and out_q.items[0] == cap['out_poison'], f"last worker left but the consumer was not released: out queue {list(out_q.items)}")
                 else: sym.check(len(out_q.items) == 0, "output pill written before the last worker left")
             if has_exc: sym.check(any(isinstance(e, ValueError) for e in mp._exceptions), "worker exception not recorded")
         else:
@@ -274,6 +283,7 @@ def sched_params(tier):
           # a filter raising StopIteration (e.g. next() on an empty iterator) must not read as a normal end of the stream; every worker lineage dying while the loader is parked on the full input queue
           dict(n=2, m=0, items=3, kind='one', bad=1, abandon=None, delays=dl, exc='StopIteration'), dict(n=1, m=1, items=3, kind='one', bad=1, abandon=None, delays=dl, exc='StopIteration'),
           dict(n=1, m=1, items=6, kind='one', bad=0, abandon=None, delays=dl), dict(n=2, m=1, items=8, kind='one', bad=[0,1], abandon=None, delays=dl),
+          dict(n=2, m=0, items=3, kind='none_out', bad=None, abandon=None, delays=dl), dict(n=2, m=1, items=3, kind='none_out', bad=None, abandon=None, delays=dl),
           dict(n=2, m=0, items=2, kind='one', bad=1, abandon=None, delays=dl, exc='AttributeError'), dict(n=2, m=1, items=2, kind='one', bad=0, abandon=None, delays=dl, exc='KeyError')]
     if tier != 'quick':
         P += [dict(n=2, m=1, items=3, kind='one', bad=None, abandon=None, delays=3), dict(n=2, m=0, items=3, kind='one', bad=1, abandon=None, delays=3),
@@ -345,7 +355,8 @@ def schedules(sym, n, m, items, kind, bad, abandon, delays, rw=False, exc='Value
         sym.check(len(out) == min(abandon, len(exp_all)) and all(cnt[k] <= ce[k] for k in cnt), f"abandon: outputs {out}")
     else:
         sym.check(err is None, f"error: unexpected {err!r}")
-        sym.check(sorted(out) == sorted(exp_all), f"multiset: outputs {sorted(out)} but the filter produces {sorted(exp_all)} (n={n}, m={m}); last steps: {trace}")
+        tag = "multiset-none-output" if kind == 'none_out' else "multiset"
+        sym.check(sorted(out, key=repr) == sorted(exp_all, key=repr), f"{tag}: outputs {sorted(out, key=repr)} but the filter produces {sorted(exp_all, key=repr)} (n={n}, m={m}); last steps: {trace}")
     if m > 0:
         per = collections.Counter(w for w,_ in F.LOG)
         sym.check(all(v <= m for v in per.values()), f"limit: a worker handled {max(per.values(), default=0)} items with maxtasksperchild={m}")
